@@ -56,6 +56,13 @@ def confirm(mid, demo_runs):
         if rc:
             res['error'] = 'build: ' + out[-600:]; return res
         rc, out, t = sh('ctest --test-dir %s -j8 --timeout 300 > %s/ctest.out 2>&1; rc=$?; tail -8 %s/ctest.out; exit $rc' % (b, scratch, scratch))
+        res['ctest_first_rc'] = rc
+        retries = 0
+        while rc != 0 and retries < 2:
+            # the suite is timing-sensitive and this machine is shared with other jobs: re-run only the failed tests, alone
+            retries += 1
+            rc, out2, t2 = sh('ctest --test-dir %s -j2 --timeout 600 --rerun-failed > %s/ctest.out 2>&1; rc=$?; tail -8 %s/ctest.out; exit $rc' % (b, scratch, scratch))
+            res.setdefault('ctest_reruns', []).append({'rc': rc, 'tail': out2.strip().splitlines()[-6:], 's': t2})
         res['ctest_rc'] = rc
         res['ctest_tail'] = out.strip().splitlines()[-6:]
         res['ctest_s'] = t
